@@ -100,6 +100,15 @@ def run(tier):
         for q in range(0, 2 * len(idx) + 1):
             name = snames[(q - 1) // 2] if q % 2 else absent[q // 2]
             qs.append(('N', name, {'reg': reg, 'q': q, 'expect_pos': order[(q - 1) // 2] if q % 2 else None, 'name': name}))
+        # absent names that collide with a present name under the zone-id hash (djb2: last two characters +1 / -33): they sit
+        # in some gap of the registry and must be reported absent like any other name of that gap
+        import bisect
+        for present in snames[:6] + snames[-2:]:
+            if len(present) >= 2 and ord(present[-1]) > 40:
+                twin = present[:-2] + chr(ord(present[-2]) + 1) + chr(ord(present[-1]) - 33)
+                if twin not in snames:
+                    g = bisect.bisect_left(snames, twin)
+                    qs.append(('N', twin, {'reg': reg, 'q': 2 * g, 'expect_pos': None, 'name': twin}))
         lines_per_case.append((ci, db, idx, qs))
     chunks = [lines_per_case[i::common.NCPU] for i in range(common.NCPU)]
 
@@ -199,6 +208,28 @@ def run(tier):
                     chk.violation(where + ':inexact', 'lookup %s %s returned %s, expected %s' % (k, arg, r['res'], want), rep)
                 elif (want == 65535) != (r.get('tz') == 'error') or (want != 65535 and r.get('tz') != name):
                     chk.violation(where + ':manager', 'manager created %r for %s %s (expected %r)' % (r.get('tz'), k, arg, name), rep)
+    # ---- several registrars / managers of the same kind alive in one process, lookups alternating between them
+    mq = 0
+    for db, names in dbs.items():
+        n = len(names)
+        lists = []
+        for size in (3, 6, 7, 12, 30):
+            a = [(j * 7) % n for j in range(size)]
+            lists.append([sorted(a), sorted(a)[2:] + [(a[-1] + 11) % n], list(reversed(sorted(a))), sorted(a)[1:]])
+        lists.append([list(range(n)), list(range(1, n)), list(range(0, n, 2))])
+        lines = ['M %s %s' % (db, ';'.join(','.join(map(str, l)) or '-' for l in ls)) for ls in lists]
+        rc, out, err, _ = common.run_cmd([exe], input='\n'.join(lines) + '\n', env=common.san_env(), timeout=3000)
+        recs = [json.loads(l) for l in out.splitlines() if l.startswith('{')]
+        if len(recs) != len(lines):
+            raise common.MachineryError('regdrv answered %d of %d multi-registrar cases: %s' % (len(recs), len(lines), err[-400:]))
+        for ls, r in zip(lists, recs):
+            if 'crash' in r:
+                chk.violation('%s:several-registrars:crash' % db, 'lookups alternating between %d registrars crashed (status %s)' % (len(ls), r['crash']), {'db': db})
+                continue
+            mq += r['nq']
+            if r['nbad']:
+                chk.violation('%s:several-registrars:inexact' % db, 'with %d registrars of sizes %s alive in one process, %d of %d lookups are wrong; first: %s' % (len(ls), [len(x) for x in ls], r['nbad'], r['nq'], r['first']), {'db': db, 'first': r['first']})
+    chk.add(lookups_alternating_between_registrars=mq)
     chk.add(states=res.distinct + live.distinct, transitions=res.generated + live.generated, traces_validated_against_impl=nq,
             name_lookups_replayed=nq, id_and_index_lookups=idq, registries=len(cases), asfound_variant_refuted=sorted(set(asf.violated)),
             rule='TLC: all sizes 0..40 x all gap positions, all permutations up to size 5, the shipped sizes and seeded shuffles (exactness, index bounds, termination as liveness); every case replayed on a real ZoneRegistrar/ZoneManager built from shipped zones with a logging comparator (probe sequence must equal the model\'s), ASan build, probe budget size+20')
